@@ -1,6 +1,7 @@
 import Mdsort.Proofs.WorldOwn
 import Mdsort.Proofs.Captures
 import Mdsort.Proofs.ExecStatus
+import Mdsort.Proofs.ExecSeqEx
 
 /-!
 # C13 - commands get exactly the configured arguments and a clean process environment
@@ -211,5 +212,101 @@ example :
       (fun _ => parseMessage [])).map (·.1.argv) =
     some [[101, 99, 104, 111], [97, 32, 98]] := by
   decide +kernel
+
+/-! ## (package ce10) What an `exec stdin` child reads, across the ACTION LIST
+
+Vocabulary: `Spec/ExecSeq.lean`.  `Spec.uptoFork env pre mh st` is `matches_exec` on `pre ++ mh :: post`
+up to - not including - the `fork` of the exec entry `mh` (`C13_exec_stdin_fork_point`).  It is run
+against the results of an ARBITRARY oracle, threading the abstract file system (`Spec.runW`); the only
+hypothesis on the results is that each one is possible in the world it is given in
+(`Spec.PossibleRun`: `applyOk` has an effect for it, a call that creates a descriptor returns the
+next handle) - every errno at every call, every short count, every wait status is covered; these
+are the runs the call-by-call conformance of the process stages accepts. -/
+
+/-- `matches_exec` on `pre ++ mh :: post`, for an exec entry `mh` with `stdin`, IS `uptoFork` followed by
+`afterFork`; and when `uptoFork` ends in `fork st' fd`, the very next call is the `fork` of `exec()`,
+which was handed `fd` as the child's standard input (`execP (some fd)`). -/
+theorem C13_exec_stdin_fork_point (env : PEnv) (pre post : MatchList) (mh : Match) (st : ExecSt)
+    (hty : mh.ty = .exec) (hs : mh.execStdin = true) :
+    matchesExec env (pre ++ mh :: post) st = (Spec.uptoFork env pre mh st).bind (Spec.afterFork env post) ∧
+    ∀ st' fd, ∃ k, Spec.afterFork env post (.fork st' fd) = (execP (some fd)).bind k ∧
+      ∃ k', (execP (some fd)).bind k = Prog.call .fork k' :=
+  ⟨Proofs.ExecSeq.matchesExec_factor env pre post mh st hty hs, fun _ _ => ⟨_, rfl, _, rfl⟩⟩
+
+/-- **The descriptor handed to the child of `exec stdin` refers to the CURRENT message, at offset 0.**
+For every action list `pre` standing before the entry (any kinds, any number: label, add-header,
+move - also across devices -, flag, flags, discard, exec of every form, ...), every state and world
+in which the message is open on a file holding `orig` (`Spec.MsgOpen`), every oracle whose results
+are possible: if the run reaches the fork of `mh` (`exec stdin`, not `body`, not inside an
+attachment block) with descriptor `fd`, then in the world AT THAT FORK `fd` is a read-only handle
+on a file whose data is the content produced by the rewriting actions of `pre`
+(`Spec.rewrittenBefore`: `message_write` of the in-memory message if `pre` has a label / add-header,
+else the original bytes), and the last call before the fork is a successful `lseek(fd, 0, SEEK_SET)`.
+(The in-memory message already carries the headers of ALL label / add-header entries of the list:
+known finding F23.) -/
+theorem C13_exec_stdin_sees_current (env : PEnv) (pre : MatchList) (mh : Match) (st : ExecSt) (orig : Bytes) (w : World)
+    (orc : Nat → Call → Res) (i : Nat) (hb : mh.execBody = false) (hp : mh.part = 0)
+    (hopen : Spec.MsgOpen w st orig) (hposs : Spec.PossibleRun orc (Spec.uptoFork env pre mh st) w i)
+    (st' : ExecSt) (fd : Handle) (hres : (Spec.runW orc (Spec.uptoFork env pre mh st) w i).1 = .fork st' fd) :
+    Spec.RewoundOn (Spec.runW orc (Spec.uptoFork env pre mh st) w i).2 fd (Spec.rewrittenBefore pre st.ms.msg orig) :=
+  Proofs.ExecSeq.wpo_sound orc (Proofs.ExecSeq.spec_uptoFork_stdin env pre mh st hb hp hopen) i hposs st' fd hres
+
+/-- Non-vacuity (evaluated run, `Proofs/ExecSeqEx.lean`): `label exec stdin` on the message `A:b\n\nx\n` -
+the hypotheses hold, the run reaches the fork with descriptor 8, and the file behind it holds the
+rewritten `A: b\n\nx\n`. -/
+example : ∃ st', (Spec.runW Proofs.ExecSeq.exOrc1 (Spec.uptoFork Proofs.ExecSeq.exEnv [Proofs.ExecSeq.exLabel]
+      Proofs.ExecSeq.exExec Proofs.ExecSeq.exSt) Proofs.ExecSeq.exW 0).1 = .fork st' 8 ∧
+    Spec.RewoundOn (Spec.runW Proofs.ExecSeq.exOrc1 (Spec.uptoFork Proofs.ExecSeq.exEnv [Proofs.ExecSeq.exLabel]
+      Proofs.ExecSeq.exExec Proofs.ExecSeq.exSt) Proofs.ExecSeq.exW 0).2 8 Proofs.ExecSeq.exNew := by
+  obtain ⟨st', h⟩ := Proofs.ExecSeq.forkFd_eq Proofs.ExecSeq.ex1_fork
+  refine ⟨st', h, ?_⟩
+  rw [← Proofs.ExecSeq.ex1_content]
+  exact C13_exec_stdin_sees_current _ _ _ _ _ _ _ 0 rfl rfl Proofs.ExecSeq.ex_open Proofs.ExecSeq.ex1_possible st' 8 h
+
+/-- The same statement with the model's ghost field `MsgSt.content` ("what the file the message's
+ENTRY is bound to contains", the field the no-loss theorems of C01/C02 are about) in the place of
+`rewrittenBefore`.  It is FALSE for every list (`C13_exec_stdin_sees_content_false`) and proved for
+lists without move / flag / flags before the entry (`C13_exec_stdin_sees_content_partial`). -/
+def C13_exec_stdin_sees_content : Prop :=
+  ∀ (env : PEnv) (pre : MatchList) (mh : Match) (st : ExecSt) (orig : Bytes) (w : World) (orc : Nat → Call → Res) (i : Nat),
+    mh.execBody = false → mh.part = 0 → Spec.MsgOpen w st orig → st.ms.content = orig →
+    Spec.PossibleRun orc (Spec.uptoFork env pre mh st) w i →
+    ∀ (st' : ExecSt) (fd : Handle), (Spec.runW orc (Spec.uptoFork env pre mh st) w i).1 = .fork st' fd →
+      Spec.RewoundOn (Spec.runW orc (Spec.uptoFork env pre mh st) w i).2 fd st'.ms.content
+
+/-- What is missing in general is exactly the copy across devices: after `maildir_move` has copied
+the message to another device the ENTRY (in the destination maildir) holds `message_write` of the
+message, but `message_set_file(..., -1)` keeps the descriptor, which still refers to the unlinked
+source file.  Without move / flag / flags before the entry the two coincide. -/
+theorem C13_exec_stdin_sees_content_partial (env : PEnv) (pre : MatchList) (mh : Match) (st : ExecSt) (orig : Bytes) (w : World)
+    (orc : Nat → Call → Res) (i : Nat) (hb : mh.execBody = false) (hp : mh.part = 0)
+    (hnm : ∀ m ∈ pre, m.ty ≠ .move ∧ m.ty ≠ .flag ∧ m.ty ≠ .flags)
+    (hopen : Spec.MsgOpen w st orig) (hc : st.ms.content = orig)
+    (hposs : Spec.PossibleRun orc (Spec.uptoFork env pre mh st) w i)
+    (st' : ExecSt) (fd : Handle) (hres : (Spec.runW orc (Spec.uptoFork env pre mh st) w i).1 = .fork st' fd) :
+    Spec.RewoundOn (Spec.runW orc (Spec.uptoFork env pre mh st) w i).2 fd st'.ms.content := by
+  have h1 := C13_exec_stdin_sees_current env pre mh st orig w orc i hb hp hopen hposs st' fd hres
+  have h2 := Proofs.ExecSeq.All.runW (Proofs.ExecSeq.all_uptoFork_content env pre mh st hnm) orc w i st' fd hres
+  rw [h2, hc]
+  exact h1
+
+/-- Witness (evaluated run 2 of `Proofs/ExecSeqEx.lean`): `move "/b/new" exec stdin CMD` with `/b` on another
+device and the message `A:b\n\nx\n`: the child's descriptor refers to the source file (`A:b`), the entry
+in `/b/new` - and `MsgSt.content` - hold `A: b`. -/
+theorem C13_exec_stdin_sees_content_false : ¬ C13_exec_stdin_sees_content := by
+  intro h
+  obtain ⟨st', hr⟩ := Proofs.ExecSeq.forkFd_eq Proofs.ExecSeq.ex2_fork
+  have := h Proofs.ExecSeq.exEnv [Proofs.ExecSeq.exMove] Proofs.ExecSeq.exExec Proofs.ExecSeq.exSt Proofs.ExecSeq.exOrig
+    Proofs.ExecSeq.exW Proofs.ExecSeq.exOrc2 0 rfl rfl Proofs.ExecSeq.ex_open rfl Proofs.ExecSeq.ex2_possible st' 8 hr
+  obtain ⟨⟨fid, off, f, hobj, hfile, hdata⟩, -⟩ := this
+  rw [Proofs.ExecSeq.ex2_obj] at hobj
+  cases hobj
+  rw [Proofs.ExecSeq.ex2_file] at hfile
+  cases hfile
+  have hcont := Proofs.ExecSeq.ex2_content
+  rw [hr] at hcont
+  simp only [Proofs.ExecSeq.forkContent] at hcont
+  rw [hcont] at hdata
+  exact Proofs.ExecSeq.ex_differ hdata
 
 end Mdsort.Props
